@@ -18,4 +18,16 @@ ModelRun(text) == LET r == RunAll(text, PInit(FALSE), <<>>) IN
 \* (not an invariant: a disagreement is printed with the behaviour and triaged after replay on the real parser)
 ModelAgrees == ModelRun(G.txt) = G.evs
 Out == done => PrintT(<<"REPLAY", ToJson([tape |-> tape, text |-> G.txt, evs |-> G.evs, model |-> ModelAgrees])>>)
+\* fixed probes, printed from the state reached by the first choice 0 (not the initial state: TLC evaluates that one on its small main-thread stack): implicit keys right at the 1024-character limit (the longest legal ones)
+LongKey(n) == [i \in 1..n |-> "k"]
+KeyDoc(pre, key, post, kev, wrapSeq) ==
+  [txt |-> pre \o key \o post,
+   evs |-> <<E0("StreamStart"), E("DocumentStart", <<>>, "implicit", 0, <<>>)>> \o (IF wrapSeq THEN <<E0("SequenceStart")>> ELSE <<>>) \o
+           <<E0("MappingStart"), kev, E("Scalar", <<"v">>, "plain", 0, <<>>), E0("MappingEnd")>> \o (IF wrapSeq THEN <<E0("SequenceEnd")>> ELSE <<>>) \o <<E0("DocumentEnd"), E0("StreamEnd")>>]
+Probes == << KeyDoc(<<>>, LongKey(1023), <<":", " ", "v", "\n">>, E("Scalar", LongKey(1023), "plain", 0, <<>>), FALSE),
+             KeyDoc(<<>>, LongKey(1024), <<":", " ", "v", "\n">>, E("Scalar", LongKey(1024), "plain", 0, <<>>), FALSE),
+             KeyDoc(<<>>, <<"\"">> \o LongKey(1022) \o <<"\"">>, <<":", " ", "v", "\n">>, E("Scalar", LongKey(1022), "double", 0, <<>>), FALSE),
+             KeyDoc(<<>>, LongKey(1020), <<" ", " ", " ", " ", ":", " ", "v", "\n">>, E("Scalar", LongKey(1020), "plain", 0, <<>>), FALSE),
+             KeyDoc(<<"-", " ">>, LongKey(1024), <<":", " ", "v", "\n">>, E("Scalar", LongKey(1024), "plain", 0, <<>>), TRUE) >>
+OutProbes == (tape = <<0>> /\ ~done) => \A i \in 1..Len(Probes) : PrintT(<<"REPLAY", ToJson([tape |-> <<i>>, text |-> Probes[i].txt, evs |-> Probes[i].evs, model |-> (ModelRun(Probes[i].txt) = Probes[i].evs)])>>)
 ===========================================================================
